@@ -174,3 +174,23 @@ Example C10_combined_example :
       (plog (acts_of c ins aud [MAudit; MSshd; MSshd; MSshd; MAudit; MAudit]))
     = [(0, 0, 0); (0, 1, 0)].
 Proof. vm_compute. repeat split; reflexivity. Qed.
+
+(* ---------- one writer, one unbuffered channel: from the workers' closures themselves ----------
+   Besides Gen/OutputWiring.v, the closures RunNamedPipe hands to eg.Go are regenerated statement by statement
+   (Gen/WorkerBodies.v) and normalised (Model/WorkerWiring.v): the writer inside the sshd processor and the audit
+   processor's EventW are the one variable bound to NewDefaultAuditEventWriter(<the opened events file>), and
+   the channel inside the sshd processor and the audit processor's Logins are the one make(chan ..) without capacity. *)
+From AM Require Import Model.WorkerWiring Gen.WorkerBodies Proofs.WorkerWiringTie.
+Theorem C10_pipelines_share_writer_and_channel :
+  opt_weq (bind_opt (bind_opt (bind_opt (ret_of 0) recv_of) (field_of "SshdProcessor")) (field_of "eventW")) (WVar "eventWriter") = true /\
+  opt_weq (bind_opt (bind_opt (ret_of 2) recv_of) (field_of "EventW")) (WVar "eventWriter") = true /\
+  opt_weq (bind_opt (bind_opt (bind_opt (ret_of 0) recv_of) (field_of "SshdProcessor")) (field_of "logins")) (WVar "logins") = true /\
+  opt_weq (bind_opt (bind_opt (ret_of 2) recv_of) (field_of "Logins")) (WVar "logins") = true /\
+  resolve_shared gen_shared "logins" = Some (WMake "chan common.RemoteUserLogin" None) /\
+  resolve_shared gen_shared "eventWriter" =
+    Some (WCall "auditevent.NewDefaultAuditEventWriter"
+            [WResult (WCall "helpers.OpenAuditLogFileUntilSuccessWithContext"
+                        [WResult (WCall "errgroup.WithContext" [WVar "ctx"]) 1; WVar "appEventsOutput";
+                         WCall "zapr.NewLogger" [WResult (WMethod (WVar "optLoggerConfig") "Build" []) 0]]) 0]).
+Proof. exact pipelines_share_writer_and_channel. Qed.
+Print Assumptions C10_pipelines_share_writer_and_channel.
